@@ -15,13 +15,13 @@ func TestC01(t *testing.T) {
 	rnd := vt.Rand()
 	gen := func(yield func(vt.Case)) {
 		for i, c := range allTLCCases(t) {
-			cc := fromTLC(c, "", "xor")
+			cc := vt.Normalize(fromTLC(c, "", "xor"))
 			if hasKinds(cc) {
 				cc["src"] = "list" // mixed sample kinds: one XOR chunk cannot hold them
 			}
 			// the model prediction is recomputed by the trace spec (informational) for every
-			// 3rd (quick) / 8th (thorough) enumerated layout only, to bound leg C's cost
-			cc["drift"] = i%vt.Pick(3, 8) == 0
+			// 5th (quick) / 8th (thorough) enumerated layout only, to bound leg C's cost
+			cc["drift"] = i%vt.Pick(5, 8) == 0
 			cc["scripts"] = scripts(rnd, readReps(cc["reps"]), 2)
 			yield(cc)
 			if i%4 == 0 && !hasKinds(cc) { // the algorithm-independent clauses also bind the chain algorithm
@@ -30,22 +30,37 @@ func TestC01(t *testing.T) {
 					ch[k] = v
 				}
 				ch["algo"] = "chain"
-				yield(ch)
+				// chain keeps "one sample from random overlapped ones" per timestamp: replicas must
+				// agree on the value at a shared timestamp for its streams to be comparable
+				rs := readReps(cc["reps"])
+				for r := range rs {
+					for j := range rs[r] {
+						rs[r][j].v = float64(1000 + rs[r][j].t/1000)
+					}
+				}
+				ch["reps"] = repsJSON(rs)
+				yield(vt.Normalize(ch))
 			}
 		}
 		n := vt.Pick(300, 4000)
 		maxS := vt.Pick(60, 200)
 		for i := 0; i < n; i++ {
 			nrep := 1 + rnd.Intn(5)
-			shared := rnd.Intn(3) == 0 // replicas agree on the value at a timestamp (same scrape target)
-			kinds := rnd.Intn(4) == 0  // native / float histogram samples among the floats
+			algo := "penalty"
+			if rnd.Intn(3) == 0 {
+				algo = "chain"
+			}
+			// replicas agree on the value at a timestamp (same scrape target); always for chain,
+			// which keeps "one sample from random overlapped ones" per timestamp
+			shared := rnd.Intn(3) == 0 || algo == "chain"
+			kinds := rnd.Intn(4) == 0 // native / float histogram samples among the floats
 			kindOf := make([]string, nrep)
 			for r := range kindOf {
 				kindOf[r] = []string{"", "h", "fh", "mix"}[rnd.Intn(4)]
 			}
 			reps := randomLayout(rnd, nrep, maxS, func(r, j int, t int64) float64 {
 				if shared {
-					return float64((t/1000)%100000 + 7)
+					return float64(((t/1000)%100000+100000)%100000 + 7) // >= 0: also used as histogram count
 				}
 				return float64((r+1)*1000000 + j)
 			})
@@ -55,6 +70,13 @@ func TestC01(t *testing.T) {
 						k := kindOf[r]
 						if k == "mix" {
 							k = []string{"", "h", "fh"}[(j/3)%3]
+						}
+						if algo == "chain" { // replicas must agree on the sample at a shared timestamp
+							t := reps[r][j].t
+							if t < 0 {
+								t = -t
+							}
+							k = []string{"", "h", "fh"}[(t/7)%3]
 						}
 						reps[r][j].k = k
 					}
@@ -66,10 +88,6 @@ func TestC01(t *testing.T) {
 			}
 			if kinds && !nonEmpty(reps) {
 				continue // the list iterator cannot represent an empty replica
-			}
-			algo := "penalty"
-			if rnd.Intn(3) == 0 {
-				algo = "chain"
 			}
 			f := []string{"", "sum_over_time", "max_over_time"}[rnd.Intn(3)]
 			yield(vt.Case{"reps": repsJSON(reps), "ctr": false, "f": f, "src": src, "algo": algo,
